@@ -117,6 +117,7 @@ Lemma table_types : table_types_ok = true. Proof. vm_compute. reflexivity. Qed.
 Lemma supported : supported_ok = true. Proof. vm_compute. reflexivity. Qed.
 Lemma dispatched : dispatched_ok = true. Proof. vm_compute. reflexivity. Qed.
 Lemma sizes : sizes_ok = true. Proof. vm_compute. reflexivity. Qed.
+Lemma declared_kinds : declared_kinds_ok = true. Proof. vm_compute. reflexivity. Qed.
 
 Lemma supported_iff : forall op dt, In op all_ops -> In dt all_dts ->
   accepted op dt = mpi_allows op dt || extension op dt.
